@@ -38,10 +38,11 @@ NoShadow == [ran |-> FALSE, ok |-> FALSE, writes |-> {}, keep |-> {}, moved |-> 
 (*        amount, maxFee, tips, sizeFee, fpg: amounts]                                            *)
 (* rc  = [success: BOOLEAN, gasUsed: Int, gasCost: amount, oog: BOOLEAN (failed for lack of gas)]  *)
 (* eff = [req: name -> requested balance (root buffer), burnt, term: amounts, deployed: names,    *)
-(*        sh: shadow record (NoShadow when the probe does not apply, i.e. wasm): what the code of *)
-(*        an embedded contract asks for when run to completion on the pre-state: ok, store writes *)
-(*        of the called contract, kept keys and stake destination of a termination, amount moved  *)
-(*        to the stake, requested balances]                                                       *)
+(*        sh: shadow record (NoShadow when the probe could not run): what the contract code asks  *)
+(*        for when run on the pre-state (embedded: to completion, against a recording environment;*)
+(*        wasm: with the bought gas, through a recording host environment): ok, store writes      *)
+(*        <<contract, key, value>>, kept keys and stake destination of a termination, amount moved*)
+(*        to the stake, requested balances (embedded only)]                                       *)
 
 Escrowed(t) == t.amount # Zero /\ (t.kind = "call" \/ t.wasm)             \* shouldAddPayAmount
 StakeDeploy(t) == t.amount # Zero /\ t.kind = "deploy" /\ ~t.wasm          \* pay amount becomes the stake
@@ -49,7 +50,8 @@ StakeDeploy(t) == t.amount # Zero /\ t.kind = "deploy" /\ ~t.wasm          \* pa
 EscrowOp(L, t) == IF Escrowed(t) THEN Move(L, t.from, t.to, t.amount) ELSE L
 RefundOp(L, t) == IF Escrowed(t) THEN Move(L, t.to, t.from, t.amount) ELSE L
 
-(* the store of the called embedded contract after all requested writes (removal = value "") *)
+(* a contract store after the requested writes <<key, value>> (removal = value "");                *)
+(* eff.sh.writes is a set of <<contract, key, value>>                                             *)
 Written(S, w) == {p \in S : ~\E q \in w : q[1] = p[1]} \cup {q \in w : q[2] # ""}
 
 CommitOp(L, t, e) ==
@@ -59,7 +61,7 @@ CommitOp(L, t, e) ==
             dropped == t.kind = "terminate" /\ a = t.to /\ o.cstake # Zero
             b1 == IF a \in DOMAIN e.req THEN e.req[a] ELSE o.bal
             b2 == IF a = t.from /\ StakeDeploy(t) THEN Monus(b1, t.amount) ELSE b1
-            s1 == IF e.sh.ran /\ a = t.to THEN Written(o.store, e.sh.writes) ELSE o.store
+            s1 == IF e.sh.ran THEN Written(o.store, {<<w[2], w[3]>> : w \in {x \in e.sh.writes : x[1] = a}}) ELSE o.store
         IN [o EXCEPT
               !.bal = b2,
               !.code = IF dropped THEN FALSE ELSE IF a \in e.deployed \/ (t.kind = "deploy" /\ a = t.to) THEN TRUE ELSE @,
@@ -82,7 +84,7 @@ GasCostOf(t, r) == Mul(FromInt(r.gasUsed), t.fpg)
 (* what left the sender beyond amount and tips - bound from the observation, never recomputed *)
 Charged(pre, post, t, r, e) == Monus(Monus(Get(Settled(pre, t, r, e), t.from).bal, t.tips), Get(post, t.from).bal)
 
-(* is the store of account a determined by the envelope? (opaque for successful wasm runs) *)
+(* are the stores determined by the envelope? (opaque for a successful run the probe could not follow) *)
 StoreDetermined(t, r, e) == ~r.success \/ e.sh.ran
 
 SameAcct(x, y, withStore) ==
@@ -96,7 +98,7 @@ Explained(pre, post, t, r, e, p) ==
 (* the balance buffer the node applied is the one the contract code asked for (both are absolute *)
 (* values on top of the escrowed pre-state); the stake refund of a termination is the node's own *)
 ReqAgree(pre, t, r, e) ==
-    (r.success /\ e.sh.ran /\ e.sh.ok) =>
+    (r.success /\ e.sh.ran /\ e.sh.ok /\ ~t.wasm) =>
         LET base == EscrowOp(pre, t)
             val(f, a) == IF a \in DOMAIN f THEN f[a] ELSE Get(base, a).bal
         IN \A a \in (DOMAIN e.req \cup DOMAIN e.sh.req) \ (IF t.kind = "terminate" THEN {e.sh.dest} ELSE {}) :
@@ -297,21 +299,17 @@ Finish(ok, dest) ==
            f == IF term THEN SetReq(f0, dest, Plus(BalAt(1, dest), Half(st))) ELSE f0
        IN /\ (~term => dest = Rcpt)
           /\ eff' = [req |-> f.req, burnt |-> f.burnt, term |-> IF term THEN Sub(st, Half(st)) ELSE Zero, deployed |-> f.dep,
-                     sh |-> IF tx.wasm THEN NoShadow
-                            ELSE [ran |-> TRUE, ok |-> ok, moved |-> f.moved, keep |-> {}, req |-> f0.req, dest |-> dest,
-                                  writes |-> {<<x[2], f.wr[x]>> : x \in {y \in DOMAIN f.wr : y[1] = Target}}]]
+                     sh |-> [ran |-> TRUE, ok |-> ok, moved |-> f.moved, keep |-> {}, dest |-> dest,
+                             req |-> IF tx.wasm THEN <<>> ELSE f0.req,
+                             writes |-> {<<x[1], x[2], f.wr[x]>> : x \in DOMAIN f.wr}]]
           /\ frames' = <<f>>
     /\ shok' = ok
     /\ rc' = [success |-> ok, gasUsed |-> gas, gasCost |-> Mul(N(gas), Fpg), oog |-> FALSE]
     /\ pc' = "settle"
     /\ UNCHANGED <<led, pre0, tx, gas, steps, acts>>
 
-(* wasm store writes of any contract are opaque to the envelope: apply them as the run left them *)
-WasmStores(L, f) == [a \in DOMAIN L |-> IF <<a, "k">> \in DOMAIN f.wr
-                                        THEN [L[a] EXCEPT !.store = Written(@, {<<"k", f.wr[<<a, "k">>]>>})] ELSE L[a]]
-
 Commit == /\ pc = "settle" /\ (rc.success \/ Bug = "commit_on_fail")
-          /\ led' = LET c == CommitOp(led, tx, eff) IN IF tx.wasm THEN WasmStores(c, frames[1]) ELSE c
+          /\ led' = CommitOp(led, tx, eff)
           /\ pc' = "charge"
           /\ UNCHANGED <<pre0, tx, rc, frames, gas, steps, eff, shok, acts>>
 
